@@ -11,8 +11,16 @@
   1-D / 0-d versions check the stored shape (`r = 1`) in `ok`, so that a wrong static guess can never go unnoticed.
   Python scalars (`self.epsilon`, literals, `y_pred.shape[0]`) stay scalars (`α`, resp. `Nat`).
 
+  3-D ARRAYS (the N×K×K tensors of the one-vs-one total variation) have their own carrier `Arr3 α` with shape
+  `(d0, d1, d2)`: `np.expand_dims` of a 2-D array, batched `@`, `np.transpose(·, axes=[0, 2, 1])`, broadcasting
+  arithmetic, reductions over the first axis and `np.squeeze(·, axis)` back to 2-D.
+
   BOOLEAN ARRAYS are `Arr Bool` (`gtS`, `ltS`, `eqS`, `band`); `ofMask` is the 0/1 float array NumPy converts them
   to inside arithmetic (`gradient * clip_mask`, `delta + delta_mask`).
+
+  PYTHON-LEVEL ERRORS.  `inPlace` re-checks the shape rule of `x op= y`; `checked flags` wraps what a method returns,
+  `flags` being the conjunction of the `ok` of every array the method computed and of the translator's own
+  conditions (`N != 0` for a division of Python scalars by `N`).
 
   SUMMATION ORDER.  Every reduction is `sumTo` (= `sumFin`, index order) over ONE axis; the full reduction of a 2-D
   array (`sumAll`, `meanAll`) sums each row, then the row sums — the order the hand models of Model/Gemini.lean use.
@@ -157,6 +165,93 @@ def setWhere (A : Arr α) (M : Arr Bool) (s : α) : Arr α :=
 def setColsWhere (A : Arr α) (m : Arr Bool) (s : α) : Arr α :=
   { A with get := fun i j => if m.get 0 j then s else A.get i j,
            ok := A.ok && m.ok && m.r == 1 && A.c == m.c }
+
+/-- `np.repeat(A, m, axis=0)` of a 2-D array: every row is repeated `m` times in a row -/
+def repeat0 (A : Arr α) (m : Nat) : Arr α :=
+  { r := A.r * m, c := A.c, get := fun i j => A.get (i / m) j, ok := A.ok }
+
+end Arr
+
+/-! ### 3-D arrays -/
+
+structure Arr3 (α : Type) where
+  d0 : Nat
+  d1 : Nat
+  d2 : Nat
+  get : Nat → Nat → Nat → α
+  /-- `false` = NumPy would have raised somewhere on the way -/
+  ok : Bool := true
+
+namespace Arr3
+variable {α : Type} [RealLike α]
+
+/-- `np.expand_dims(A, axis=0)` of a 2-D array: shape `(1, r, c)` (also: how NumPy broadcasts a 2-D array against a
+    3-D one) -/
+def expandFirst (A : Arr α) : Arr3 α :=
+  { d0 := 1, d1 := A.r, d2 := A.c, get := fun _ j k => A.get j k, ok := A.ok }
+/-- `np.expand_dims(A, axis=1)` of a 2-D array: shape `(r, 1, c)` -/
+def expandMid (A : Arr α) : Arr3 α :=
+  { d0 := A.r, d1 := 1, d2 := A.c, get := fun i _ k => A.get i k, ok := A.ok }
+/-- `np.expand_dims(A, axis=-1)` of a 2-D array: shape `(r, c, 1)` -/
+def expandLast (A : Arr α) : Arr3 α :=
+  { d0 := A.r, d1 := A.c, d2 := 1, get := fun i j _ => A.get i j, ok := A.ok }
+
+/-- `np.transpose(T, axes=[0, 2, 1])` -/
+def transpose021 (T : Arr3 α) : Arr3 α :=
+  { d0 := T.d0, d1 := T.d2, d2 := T.d1, get := fun i j k => T.get i k j, ok := T.ok }
+
+/-- `S @ T` on 3-D arrays: one matrix product per index of the first axis (which broadcasts) -/
+def matmul (S T : Arr3 α) : Arr3 α :=
+  { d0 := bdim S.d0 T.d0, d1 := S.d1, d2 := T.d2,
+    get := fun i a b => sumTo S.d2 fun l => S.get (bidx S.d0 i) a l * T.get (bidx T.d0 i) l b,
+    ok := S.ok && T.ok && bok S.d0 T.d0 && S.d2 == T.d1 }
+
+/-- elementwise binary operation with NumPy broadcasting on the three axes -/
+def zipWith (f : α → α → α) (S T : Arr3 α) : Arr3 α :=
+  { d0 := bdim S.d0 T.d0, d1 := bdim S.d1 T.d1, d2 := bdim S.d2 T.d2,
+    get := fun i j k => f (S.get (bidx S.d0 i) (bidx S.d1 j) (bidx S.d2 k)) (T.get (bidx T.d0 i) (bidx T.d1 j) (bidx T.d2 k)),
+    ok := S.ok && T.ok && bok S.d0 T.d0 && bok S.d1 T.d1 && bok S.d2 T.d2 }
+
+/-- `S + T` -/
+def add (S T : Arr3 α) : Arr3 α := zipWith (· + ·) S T
+/-- `S - T` -/
+def sub (S T : Arr3 α) : Arr3 α := zipWith (· - ·) S T
+/-- `S * T` (elementwise) -/
+def mul (S T : Arr3 α) : Arr3 α := zipWith (· * ·) S T
+/-- `S / T` (elementwise) -/
+def div (S T : Arr3 α) : Arr3 α := zipWith (· / ·) S T
+
+/-- `-T` -/
+def neg (T : Arr3 α) : Arr3 α := { T with get := fun i j k => -(T.get i j k) }
+/-- `np.sign(T)` -/
+def sign (T : Arr3 α) : Arr3 α := { T with get := fun i j k => RealLike.sign (T.get i j k) }
+/-- `np.abs(T)` -/
+def abs (T : Arr3 α) : Arr3 α := { T with get := fun i j k => RealLike.abs (T.get i j k) }
+/-- `s * T` for a Python scalar `s` -/
+def smul (s : α) (T : Arr3 α) : Arr3 α := { T with get := fun i j k => s * T.get i j k }
+/-- `T * s` -/
+def muls (T : Arr3 α) (s : α) : Arr3 α := { T with get := fun i j k => T.get i j k * s }
+/-- `T / s` -/
+def divs (T : Arr3 α) (s : α) : Arr3 α := { T with get := fun i j k => T.get i j k / s }
+
+/-- `T.sum(0)`: the 2-D array of shape `(d1, d2)` -/
+def sumAxis0 (T : Arr3 α) : Arr α :=
+  { r := T.d1, c := T.d2, get := fun j k => sumTo T.d0 fun l => T.get l j k, ok := T.ok }
+/-- `T.mean(0)` / `np.mean(T, axis=0)`: the 2-D array of shape `(d1, d2)` -/
+def meanAxis0 (T : Arr3 α) : Arr α :=
+  { r := T.d1, c := T.d2, get := fun j k => (sumTo T.d0 fun l => T.get l j k) / nat T.d0, ok := T.ok }
+
+/-- `np.squeeze(T, axis=1)`: shape `(d0, d2)`; NumPy raises unless `d1 = 1` -/
+def squeeze1 (T : Arr3 α) : Arr α :=
+  { r := T.d0, c := T.d2, get := fun i k => T.get i 0 k, ok := T.ok && T.d1 == 1 }
+/-- `np.squeeze(T, axis=2)`: shape `(d0, d1)`; NumPy raises unless `d2 = 1` -/
+def squeeze2 (T : Arr3 α) : Arr α :=
+  { r := T.d0, c := T.d1, get := fun i j => T.get i j 0, ok := T.ok && T.d2 == 1 }
+
+end Arr3
+
+namespace Arr
+variable {α : Type} [RealLike α]
 
 /-! ### Python-level checks -/
 
